@@ -17,6 +17,22 @@ add("C01", "X", "model_checking",
     "Trusted: stateright 0.31 search and its 64-bit fingerprints (a collision can only hide a state); the verif_view hook renders the complete connection state; bounds as listed in the evidence (configurations).",
     "DESIGN.md 3/C01")
 
+add("C02", "X", "model_checking",
+    "explicit-state model checking (stateright) + fair-suffix ranking executed on the real objects from every unique state; payload-length sweep under a wall-clock watchdog",
+    "From every reachable state of the two-endpoint model (i.e. after every finite fault prefix within the budgets) the fair suffix is executed on the real endpoints and must reach the goal (ready, all vital chunks delivered and acknowledged, nothing queued) within 24 rounds; the deadline invariant is checked on every state; every call runs under a watchdog; every payload length 0..1391 and boundary pairs are lost once and must be recovered.",
+    "Trusted: stateright search; the fair scheduler defined in model.rs (rank); watchdog limit 10 s per call; bounds in the evidence.",
+    "DESIGN.md 3/C02")
+add("C03", "X", "model_checking",
+    "explicit-state model checking (stateright); per unique state an exhaustive sweep of a foreign-datagram alphabet against a copy of the real endpoint",
+    "On every reachable state with a fixed token (0.6+token, 0.7; client and server), ~500-1500 foreign datagrams (every packet kind x wrong/absent tokens incl. all single-bit flips, compressed forms, truncations and byte substitutions of valid datagrams) are fed to a copy of the real endpoint; events, replies, randomness use and the complete state view must be unchanged. Reserved tokens: all scripted randomness sequences of length <=3.",
+    "Trusted: independent classifier (wire.rs, from doc/packet*.md + bundled C++ Huffman reference) decides which datagrams carry the agreed token; completeness of verif_view.",
+    "DESIGN.md 3/C03")
+add("C04", "E", "exploration",
+    "bounded exhaustive enumeration of API call sequences (depth 3/4 over 58 operations) on a real endpoint + wire monitor inside the explicit-state model",
+    "All API sequences up to the depth on an online endpoint of each variant, n=1..700 small chunks without flush, and every datagram emitted in the explored two-endpoint model are read back by the library's own reader: <=1400 bytes, no error, no warning, chunk count, chunks bit-identical to what was queued; refusals leave the connection usable; nothing panics.",
+    "Trusted: the oracle uses the library's own reader by definition of the property; payload lengths are a boundary set, not every length, in the sequence part (every length is covered by C02's sweep).",
+    "DESIGN.md 3/C04")
+
 NOT_YET = {}
 
 def main():
